@@ -19,7 +19,7 @@ func (table Hmtx) Advance(gid GlyphID) int16 {
 	index := int(gid)
 	if index < LM {
 		return table.Metrics[index].AdvanceWidth
-	} else if index < LS+LM { // return the last value
+	} else if LM != 0 && index < LS+LM { // return the last value
 		return table.Metrics[len(table.Metrics)-1].AdvanceWidth
 	}
 	return 0
